@@ -8,7 +8,9 @@ from props._gitobj import GitRepo
 ID = "C02"
 THEOREMS = ["C02_ident_dec_enc", "C02_commit_dec_enc", "C02_commit_enc_dec_bytes", "C02_commit_reencode_refuted",
             "C02_tag_dec_enc", "C02_tag_enc_dec_bytes", "C02_tag_reencode_refuted", "C02_message_matches_git", "C02_ident_matches_git_partial", "C02_ident_matches_git_refuted",
-            "C02_fields_match_git_refuted"]
+            "C02_fields_match_git_refuted", "C02_commit_fields_match_git_partial", "C02_tag_fields_match_git_partial",
+            "C02_tag_fields_match_git_refuted", "C02_extras_match_git_refuted", "C02_extras_match_git_partial",
+            "C02_commit_sigs_match_git_partial", "C02_commit_all_fields_match_git_partial"]
 MODEL_FILES = ["ObjLines.v", "Ident.v", "Commit.v", "Tag.v"]
 MODELLED = ("plumbing/object/commit_scanner.go: the whole stateFn decoder (scanTree, scanParents, scanAuthor, scanCommitter, scanHeaders, "
             "scanPgpCont/scanPgp256Cont/continuationCont, scanExtraCont, finaliseExtra, scanMessage, push-back, sawEncoding, splitHeader, "
@@ -18,7 +20,8 @@ MODELLED = ("plumbing/object/commit_scanner.go: the whole stateFn decoder (scanT
             "encodeTimeAndTimeZone incl. strconv.ParseInt(10,64) and time.Format(\"-0700\") of a fixed zone (Model/Ident.v). "
             "Input of the decoders is bufio ReadBytes('\\n') line splitting (Model/ObjLines.split_lines). "
             "S: Spec/GitFields.v = git 2.39 parse_commit_buffer, pretty.c parse_commit_header/split_ident_line/show_ident_date, "
-            "find_commit_header, parse_tag_buffer, ref-filter find_wholine/copy_name/copy_email/grab_date/find_subpos. "
+            "find_commit_header, parse_tag_buffer, ref-filter find_wholine/copy_name/copy_email/grab_date/find_subpos; "
+            "Spec/GitExtra.v = commit.c read_commit_extra_header_lines (gpgsig excluded) and add_extra_header; signatures: Spec/GitSig.v (C03). "
             "Not modelled (exercised only): MemoryObject / bufio / sync pools, time.Time beyond (Unix seconds, zone minutes), "
             "the Hash field, I/O errors")
 TRUSTED = [
@@ -26,18 +29,21 @@ TRUSTED = [
     "C-git: Spec/GitFields (S) vs `git log -1 --no-walk --date=raw --format=%T %P %an %ae %ad %cn %ce %cd %e %B` and "
     "`git for-each-ref --format=%(object) %(type) %(tag) %(taggername) %(taggeremail) %(taggerdate:raw) %(contents)` of git 2.39.5 "
     "on the same stored objects (objects git refuses included)",
+    "C-git, extra headers: Spec/GitExtra (S) vs `git commit --amend` of git 2.39.5, which re-writes a commit from its own parse "
+    "(read_commit_extra_headers + add_extra_header): for root commits the header block of the amended commit must be S's extra headers "
+    "as S renders them; go-git's ExtraHeaders are then compared with S's list on the same objects",
     "the known-finding classes are decided by the boolean clauses of Spec/ObjWf (evaluated by Coq) and by whether the pristine model re-encodes the object exactly",
 ]
 ASSUMPTIONS = ["git's fields are what `git log --format` (commits) and `git for-each-ref --format` (tags) print; where git is not "
                "self-consistent (several author/committer lines: pretty.c reports the last, find_commit_header the first) no comparison is made",
                "objects with NUL bytes, and commits that carry both an encoding header and non-ASCII text (git re-encodes them for display), "
                "are compared with the model only, not with git"]
-RULE = ("case = stored commit/tag bytes from buckets {canonical, sigs, permuted, dups, oddident, oddhdr, eofhdr, trunc, junk}, or an "
+RULE = ("case = stored commit/tag bytes from buckets {canonical, sigs, permuted, dups, oddident, oddhdr, eofhdr, trunc, junk, extras}, or an "
         "in-memory struct {well-formed, odd}, or an identity line; non-trivial = every case (each has a header block); distinct by content")
 
 GIT_TAG_TYPES = ("commit", "tree", "blob", "tag")      # go-git's ParseObjectType also takes ofs-delta / ref-delta
 IMPORTS = ("From GoGit Require Import Model.ObjLines Model.Ident Model.Commit Model.Tag "
-           "Spec.GitFields Spec.ObjWf.")
+           "Spec.GitFields Spec.ObjWf Spec.GitExtra.")
 
 
 def coq_bytes(h):
@@ -290,6 +296,39 @@ class Main(Suite):
         for i, o in zip(keys2, ctx.coq_eval(IMPORTS, exprs2)):
             if o is not None:
                 self._enc_clauses[i] = [x == "true" for x in parse_out(o)]
+        # extra headers: root commits that go-git decodes and git parses are amended by git (which re-writes the extra headers
+        # it parsed); S (Spec/GitExtra) must render exactly that header block, then go-git's list is compared with S's
+        self._extras = {}
+        cand = []
+        for c in cs:
+            raw = bytes.fromhex(c["raw"])
+            hdr = raw.split(b"\n\n", 1)[0]
+            r = impl.get(c["id"])
+            if r is None or not r["out"].startswith("( ok") or not isinstance(git.get(c["id"]), dict):
+                continue
+            if b"\0" in raw or any(b >= 0x80 for b in raw) or re.search(rb"^parent ", hdr, re.M):
+                continue
+            cand.append(c)
+        if ctx.tier == "quick":
+            cand.sort(key=lambda c: 0 if str(c.get("bucket", "")).startswith("corpus-") else 1)      # finding witnesses first (stable)
+            cand = cand[:60]
+        if cand:
+            outs = ctx.coq_eval(IMPORTS, ['OList [c02_extras_guard "%s"; c02_spec_extras "%s"]' % (c["raw"], c["raw"]) for c in cand])
+            am = repo.amend_many(repo.store("commit", [bytes.fromhex(c["raw"]) for c in cand]))
+            for c, o, a in zip(cand, outs, am):
+                if o is None:
+                    self._extras[c["id"]] = ("spec-failed", None, None)
+                    continue
+                shape, (lst, rend) = parse_out(o)
+                shape = [x == "true" for x in shape]
+                if a is None:
+                    self._extras[c["id"]] = ("git-refuses", shape, lst)
+                    continue
+                mm = re.match(rb"tree [0-9a-f]{40}\nauthor [^\n]*\ncommitter N <e@f> 1700000000 \+0000\n", a)
+                ok = mm is not None and a[mm.end():].startswith(rend + b"\n")
+                self._extras[c["id"]] = ("ok" if ok else "spec-mismatch", shape, lst)
+                if not ok:
+                    ctx.notes.append("spec_mismatch S vs git (extra headers) on %s: S renders %r, git commit --amend wrote %r" % (c["raw"], rend[:200], a[:300]))
         self._cache = (cases, (git, cl, spec))
         return self._cache[1]
 
@@ -324,6 +363,14 @@ class Main(Suite):
                 else:
                     if g is not None and b"\0" not in raw:
                         probs += cmp_commit_git(o[1], g, raw, cl[i]) if op == "cdec" else cmp_tag_git(o[1], g, raw, cl[i])
+                    ex = self._extras.get(i)
+                    if op == "cdec" and ex and ex[0] == "ok":
+                        want = [[k, v.rstrip(b"\n")] for k, v in ex[2]]
+                        if o[1][5] != want:
+                            guard, term, spaced = ex[1]
+                            cls = None if guard else "commit-extra-unterminated" if not term else \
+                                "commit-extra-bare-header" if not spaced else "commit-extra-stray-continuation"
+                            probs.append(("extra-headers", cls))
                     if o[2] != raw:
                         # known only where the pristine model shows the same, by-design, normalisation
                         pristine_exact = m is not None and m[0] == "ok" and m[2] == raw
@@ -368,6 +415,13 @@ class Main(Suite):
         """C-git: S (Spec/GitFields) vs the git binary on the stored objects"""
         git, cl, spec = self.sides(ctx, cases, impl)
         bad = compared = outside = wf = 0
+        # tags on which git itself is undefined: for-each-ref %(contents) runs parse_signature -> remove_signature, which has two
+        # slots; a third gpgsig region in front of an inline signature makes git 2.39 abort (C03's S calls this "undefined")
+        dead = [c for c in cases if c["op"] == "tdec" and git.get(c["id"]) is None and str(spec.get(c["id"]) or "").startswith("( ok")]
+        undefined = set()
+        if dead:
+            outs = ctx.coq_eval("From GoGit Require Import Spec.GitSig.", ['c03_spec_tag "%s"' % c["raw"] for c in dead])
+            undefined = {c["id"] for c, o in zip(dead, outs) if o == "undefined"}
         for c in cases:
             i, op = c["id"], c["op"]
             if op in ("cenc", "tenc"):
@@ -381,7 +435,7 @@ class Main(Suite):
                 bad += 1
                 ctx.notes.append("spec evaluation failed on %s" % c["raw"][:80])
                 continue
-            if s == "outside":
+            if s == "outside" or i in undefined:
                 outside += 1
                 continue
             compared += 1
@@ -407,7 +461,26 @@ class Main(Suite):
             if s != want:
                 bad += 1
                 ctx.notes.append("spec_mismatch S vs git on %s %s: S=%s git=%s" % (op, c["raw"], s[:300], want[:300]))
-        return {"spec_vs_git_cases": compared, "spec_mismatches": bad, "spec_outside_transcription": outside, "wellformed_structs": wf}
+        exs = getattr(self, "_extras", {})
+        bad += sum(1 for v in exs.values() if v[0] in ("spec-mismatch", "spec-failed"))
+        return {"spec_vs_git_cases": compared, "spec_mismatches": bad, "spec_outside_transcription": outside, "wellformed_structs": wf,
+                "extras_amended_by_git": sum(1 for v in exs.values() if v[0] == "ok"),
+                "extras_git_refuses_amend": sum(1 for v in exs.values() if v[0] == "git-refuses"),
+                "extras_guard_true": sum(1 for v in exs.values() if v[0] == "ok" and v[1][0]),
+                "clause_vectors": self.clause_stats(cases, cl)}
+
+    def clause_stats(self, cases, cl):
+        """how often each agreement clause is true / false among the decoded objects (coverage of the clause boundaries)"""
+        st = {}
+        for c in cases:
+            v = cl.get(c["id"])
+            if c["op"] not in ("cdec", "tdec") or not isinstance(v, list):
+                continue
+            names = ["parents", "position", "aperson", "adate", "cperson", "cdate", "encoding"] if c["op"] == "cdec" else ["t-position", "t-person", "t-date"]
+            for n, b in zip(names, v):
+                k = "%s=%s" % (n, "T" if b else "F")
+                st[k] = st.get(k, 0) + 1
+        return st
 
 
 SUITES = [Main()]
